@@ -1,7 +1,8 @@
 """C06 - replications are isolated.  Engine A + inline worker + model generator."""
 from vf.driver import Cond
 
-HIST = ["initialised-only", "stepped-j-times", "bounded-run-to-t", "paused-at-event-j", "run-to-the-end", "paused-by-a-handler-fault"]
+HIST = ["initialised-only", "stepped-j-times", "bounded-run-to-t", "paused-at-event-j", "run-to-the-end", "paused-by-a-handler-fault",
+        "stepped-j-times-then-cleanup", "ended-by-a-handler-fault-under-WARN_AND_END"]
 
 
 def run(ctx):
@@ -16,13 +17,16 @@ def run(ctx):
     vmax = 3 if q else 4
     conds = [Cond(f"re-initialise-after/{name}", "c06", "h_isolated", {"VF_HIST": h, "VF_VMAX": vmax}, 900 if q else 3000)
              for h, name in enumerate(HIST)]
+    conds += [Cond(f"re-initialise-after/{name}/replication starts at 2", "c06", "h_isolated",
+                   {"VF_HIST": h, "VF_VMAX": vmax, "VF_START": 2}, 900 if q else 3000)
+              for h, name in enumerate(HIST) if h in ((1, 4) if q else (0, 1, 2, 3, 4, 5, 6))]
     conds.append(Cond("initialize-issued-while-running-is-refused-and-changes-nothing", "c06", "h_init_while_running", {"VF_VMAX": vmax}, 900))
     ctx.crosshair(conds)
-    ctx.bounds = {"prior history": "six history kinds (fixed per condition) with a symbolic parameter: number of steps, bound of the bounded "
+    ctx.bounds = {"prior history": "eight history kinds (fixed per condition) with a symbolic parameter: number of steps, bound of the bounded "
                                    "run, event at which a handler pauses or fails",
                   "model": "three events (one scheduled by a handler after a delay drawn from a seeded stream), a SimCounter, SimTally and "
                            "SimPersistent created in construct_model; symbolic: time of the second root event, the drawn delay, the warm-up time",
-                  "replication": f"start 0, length {vmax}"}
+                  "replication": f"start 0 (all histories) and start 2 (quick: two histories; thorough: seven), length {vmax}"}
     ctx.assumptions = ["inline worker (sequential schedule), virtual clock, narrowed bare except",
                        "random.Random replaced by the model generator: equal seeds give equal sequences (the Mersenne Twister is trusted)",
                        "the model rebuilds everything it owns (stream, producer, statistics) in construct_model, as the documentation instructs"]
